@@ -40,6 +40,24 @@ def uuidParse (s : Str) : Bool :=
   else if s.length = 32 then (List.range 16).all (fun i => hexPairAt s (2 * i))
   else false
 
+/-- `uuid.Validate` of the same library: the same grammar, but the 38-byte form must really be `{` … `}` -/
+def uuidValidate (s : Str) : Bool :=
+  if s.length = 36 then parseDashed s
+  else if s.length = 36 + 9 then isUrnPrefix (s.take 9) && parseDashed (s.drop 9)
+  else if s.length = 36 + 2 then s.head? = some '{' && s.getLast? = some '}' && parseDashed (s.drop 1)
+  else if s.length = 32 then (List.range 16).all (fun i => hexPairAt s (2 * i))
+  else false
+
+/-- which library function `bestPracticesCheck` applies to the jti (REGENERATED FACT `jtiFunction`) -/
+inductive JtiFn where
+  | parse
+  | validate
+  deriving Repr, DecidableEq
+
+def jtiOK : JtiFn → Str → Bool
+  | .parse, s => uuidParse s
+  | .validate, s => uuidValidate s
+
 /-- the canonical 36-byte text: five hex groups 8-4-4-4-12 joined by `-` -/
 def isCanonicalUuid (s : Str) : Bool := s.length = 36 && parseDashed s
 
